@@ -11,7 +11,7 @@ import itertools
 SUPPORTS_REPLAY = True
 SHARDS = {'quick': 16, 'thorough': 64}
 TIMEOUT = {'quick': 900, 'thorough': 5400}
-MUST_HIT = ['OrderedSetInv', 'ListModel', 'icontract.OrderedSetInv']
+MUST_HIT = ['OrderedSetInv', 'ListModel', 'icontract.OrderedSetInv', 'Operand.binary-operand-with-repeats']
 MUST_REACH = ['xtuml/tools.py:OrderedSet.add', 'xtuml/tools.py:OrderedSet.discard',
               'xtuml/tools.py:OrderedSet.pop', 'xtuml/tools.py:OrderedSet.__eq__',
               'xtuml/tools.py:OrderedSet.__reversed__', 'xtuml/meta.py:QuerySet.last']
@@ -154,8 +154,20 @@ def apply(s, model, op, cls):
                            % (op[1], model, list(s)))
         model = list(s)   # order of the elements that arrived through ^= is not claimed
     elif name in ('or', 'and', 'sub', 'xor'):
-        other = cls(op[1])
         before = list(s)
+        # the other operand is an ordered set, or a plain sequence - which may name an element more than once
+        style = (len(before) + len(op[1])) % 4
+        if style == 0 or not op[1]:
+            other = cls(op[1])
+        elif style == 1:
+            other = list(op[1])
+        elif style == 2:
+            other = list(op[1]) + list(reversed(op[1]))
+            HITS['binary-operand-with-repeats'] = HITS.get('binary-operand-with-repeats', 0) + 1
+        else:
+            other = tuple([op[1][0]] * (len(before) + 1) + list(op[1]))
+            HITS['binary-operand-with-repeats'] = HITS.get('binary-operand-with-repeats', 0) + 1
+        other_before = list(other)
         if name == 'or':
             r = s | other
             want = set(model) | set(op[1])
@@ -169,8 +181,8 @@ def apply(s, model, op, cls):
             r = s ^ other
             want = set(model) ^ set(op[1])
         if set(r) != want or len(r) != len(want):
-            raise Mismatch('algebra/' + name, '%r %s %r gave %r' % (model, name, op[1], list(r)))
-        if list(s) != before or list(other) != list(op[1]):
+            raise Mismatch('algebra/' + name, '%r %s %r gave %r' % (model, name, other_before, list(r)))
+        if list(s) != before or list(other) != other_before:
             raise Mismatch('algebra/operand-changed', '%s changed an operand' % name)
         if not isinstance(r, cls):
             raise Mismatch('algebra/type', '%s returned a %s' % (name, type(r).__name__))
@@ -180,13 +192,13 @@ def apply(s, model, op, cls):
         # the result is a set of its own: changing it afterwards leaves both operands as they were
         marker = ('marker', len(before))
         r.add(marker)
-        if list(s) != before or list(other) != list(op[1]):
+        if list(s) != before or list(other) != other_before:
             raise Mismatch('algebra/result-aliases-operand', 'adding to the result of %r %s %r changed an operand'
                            % (model, name, op[1]))
         r.discard(marker)
         if r:
             r.pop()
-            if list(s) != before or list(other) != list(op[1]):
+            if list(s) != before or list(other) != other_before:
                 raise Mismatch('algebra/result-aliases-operand', 'popping from the result of %r %s %r changed an '
                                'operand' % (model, name, op[1]))
     elif name == 'iterrm':
@@ -336,6 +348,11 @@ def icontract_history(ctx, n):
             ctx.violation(e.key, e.what, case=dict(cls='OrderedSet', ops=ops))
         ctx.case(('ic', ops), True)
     ctx.hit('icontract.OrderedSetInv', evals[0])
+    for k, v in HITS.items():
+        ctx.hit('Operand.' + k, v)
+
+
+HITS = {}
 
 
 def random_ops(rng, universe, length):
